@@ -251,6 +251,17 @@ def _dump_reader(reader, keyfield, stats, physical):
         posts = _guard(_read_postings, reader, fieldname, btext, fieldobj.format, key_of)
         if posts:
             terms.setdefault(fieldname, {})[tt] = posts
+        if fieldname == keyfield:
+            # key lookup (what Searcher.document_number(key=...) is built on): the
+            # first LIVE document of the term, or TermNotFound when every posting of
+            # the term is deleted - independent of whether the segment was rewritten
+            try:
+                fid = reader.first_id(fieldname, btext)
+                fk = "dead-doc:%s" % key_of(fid) if reader.is_deleted(fid) else key_of(fid)
+            except Exception as e:
+                fk = None if type(e).__name__ in ("TermNotFound", "KeyError") else exc_name(e)
+            if fk is not None or (posts and not isinstance(posts, str)):
+                out.setdefault("first_key", {})[tt] = fk
         if stats:
             def _ti():
                 ti = reader.term_info(fieldname, btext)
@@ -427,6 +438,10 @@ def diff(a, b, with_stats=False, labels=("got", "expected")):
                         elif kind == "vectors":
                             det = "%s:%s" % (f, "presence" if "<absent>" in (vx, vy) else "content")
                         add(kind, det, "doc %r %s[%s] %s=%s %s=%s" % (k, sect, f, la, _short(vx), lb, _short(vy)))
+    fa_, fb_ = a.get("first_key") or {}, b.get("first_key") or {}
+    for t in sorted(set(fa_) | set(fb_), key=str):
+        if fa_.get(t) != fb_.get(t):
+            add("first_id", "key-lookup", "first_id(key field, %r) %s=%r %s=%r" % (t, la, fa_.get(t), lb, fb_.get(t)))
     if not _eq(a.get("stored_all"), b.get("stored_all")):
         add("stored", "all_stored_fields", "all_stored_fields() %s=%s %s=%s" % (la, _short(a.get("stored_all")), lb, _short(b.get("stored_all"))))
     ta, tb = a["terms"], b["terms"]
